@@ -117,8 +117,15 @@ func (m *mon) step(i int, line, out string) {
 	if len(f) == 0 {
 		return
 	}
+	if strings.HasPrefix(out, "HANG-BEFORE") {
+		return // reported where it happened
+	}
 	if strings.HasPrefix(out, "PANIC") || strings.HasPrefix(out, "HANG") || strings.HasPrefix(out, "TCP-ERROR") {
-		m.add(i, "C12:crash-or-hang:"+f[0], "the server crashed, hung or dropped the connection: "+out)
+		kind := f[0]
+		if kind == "keys" || kind == "dev" || kind == "cfgchange" {
+			kind = "config-change"
+		}
+		m.add(i, "C12:crash-or-hang:"+kind, "the server crashed, hung or dropped the connection: "+out)
 		return
 	}
 	switch f[0] {
